@@ -32,10 +32,19 @@ type Contract struct {
 	Ats      map[string][]Clause // call-site assertions keyed "Name#k"
 	Loops    map[int][]Clause // invariants by loop ordinal (1-based, source order of loop headers)
 	LoopMod  map[int][]string
+	Interf   []Interference
 	Options  map[string]string
 	Assumed  bool   // trusted contract: used at call sites, not verified against a body
 	File     string // where it was declared
 	Line     int
+}
+
+// Interference: before every call of one of Callees (unless Lock is statically held) the ghost maps are
+// forgotten and re-assumed under the two-state rely predicate Pred (old() = the state before the interference).
+type Interference struct {
+	Callees []string
+	Lock    string
+	Pred    Clause
 }
 
 type PureFn struct {
@@ -76,7 +85,7 @@ var labelRe = regexp.MustCompile(`^\[([A-Za-z0-9_.:\-]+)\]\s*`)
 
 var clauseKeywords = map[string]bool{"func": true, "pure": true, "lemma": true, "props": true, "requires": true, "ensures": true,
 	"modifies": true, "loop": true, "option": true, "assumed": true, "package": true, "transparent": true, "opaque": true,
-	"hyp": true, "concl": true, "end": true, "at": true, "ghostmap": true, "constglobal": true, "havoc": true}
+	"hyp": true, "concl": true, "end": true, "at": true, "interfere": true, "ghostmap": true, "constglobal": true, "havoc": true}
 
 // parseContractText parses the //@ lines of one file. defaultPkg is the package path the file
 // belongs to (for /repo files) or "" (prelude files must use `package` lines).
@@ -274,6 +283,30 @@ func (db *ContractDB) parseContractText(file, text, defaultPkg string) error {
 				key += "!after"
 			}
 			cur.Ats[key] = append(cur.Ats[key], cl)
+		case "interfere":
+			// interfere A, B [unless held EXPR] : PRED
+			if cur == nil {
+				return fmt.Errorf("%s:%d: interfere outside func", file, c.line)
+			}
+			i := strings.Index(c.rest, " : ")
+			if i < 0 {
+				return fmt.Errorf("%s:%d: bad interfere clause", file, c.line)
+			}
+			head, pred := c.rest[:i], strings.TrimSpace(c.rest[i+3:])
+			itf := Interference{}
+			if j := strings.Index(head, " unless held "); j >= 0 {
+				itf.Lock = strings.TrimSpace(head[j+13:])
+				head = head[:j]
+			}
+			for _, n := range strings.Split(head, ",") {
+				itf.Callees = append(itf.Callees, strings.TrimSpace(n))
+			}
+			cl, err := mkClause(pred, c.line)
+			if err != nil {
+				return err
+			}
+			itf.Pred = cl
+			cur.Interf = append(cur.Interf, itf)
 		case "ghostmap":
 			// ghostmap NAME int|bool
 			f := strings.Fields(c.rest)
